@@ -999,6 +999,10 @@ def call_method(ip, st, recv, name, args, kwargs):
                 return mm(ip, st, recv, args, kwargs)
             if p.cls == '<BytesIO>':
                 return bytesio_method(ip, st, recv, p, name, args, kwargs)
+            if p.cls == '<match>':
+                return match_method(ip, st, recv, args, kwargs, name)
+            if p.cls == '<pattern>' and name == 'match':
+                return m_re_match(ip, st, [recv] + list(args), kwargs)
             if p.cls == '<bytearray>':
                 return bytearray_method(ip, st, recv, p, name, args, kwargs)
     if isinstance(recv, Builtin) and recv.name == 'super':
@@ -1296,3 +1300,170 @@ LIB_MODELS = {
 def install_models(ip):
     for k, v in LIB_MODELS.items():
         ip.models.setdefault(k, v)
+
+
+# ------------------------------------------------------------------------------------------------ re (pattern-specific models)
+# Python's `re` is a backtracking matcher: which substring a group captures depends on its priority rules.  There is no
+# general translation here.  Each pattern the audited code uses gets a hand-derived characterisation of its match
+# condition and captures (derivation next to each entry), valid for strings without '\n' (the model refuses others);
+# `\d` is taken as [0-9] (inputs are ASCII: stated in the contracts).  The models are cross-checked against CPython's
+# `re` on enumerated strings by the encoding cross-check of the thorough tier.
+def _re(s):
+    return z3.Re(zstr(s))
+
+
+def _anyc():
+    return z3.AllChar(z3.ReSort(z3.StringSort()))
+
+
+def _any():
+    return z3.Star(_anyc())
+
+
+DIG = z3.Range(z3.StringVal('0'), z3.StringVal('9'))
+DIGDOT = z3.Union(DIG, _re('.'))
+
+
+def rx_dotted_prefix(ip, st, s):
+    """r'^([\\d\\.]+\\d+)(.*)$' : group 1 is the longest prefix in [\\d.]+\\d+ (the greedy [\\d.]+ gives back characters
+    until a digit follows: that is the last digit of the leading [\\d.]-run), group 2 the rest."""
+    R1 = z3.Concat(z3.Plus(DIGDOT), z3.Plus(DIG))
+    cond = z3.InRe(s, z3.Concat(R1, _any()))
+
+    def groups():
+        g1, g2 = fresh('g1', 'str'), fresh('g2', 'str')
+        st.pc.append(s == z3.Concat(g1.t, g2.t))
+        st.pc.append(z3.InRe(g1.t, R1))
+        st.pc.append(z3.Not(z3.InRe(g2.t, z3.Concat(z3.Star(DIGDOT), DIG, _any()))))
+        return (g1, g2)
+    return cond, groups
+
+
+def rx_dotted_prefix1(ip, st, s):
+    """r'^([\\d\\.]*\\d+)(.*)$' : as above, but a single digit suffices"""
+    R1 = z3.Concat(z3.Star(DIGDOT), z3.Plus(DIG))
+    cond = z3.InRe(s, z3.Concat(R1, _any()))
+
+    def groups():
+        g1, g2 = fresh('g1', 'str'), fresh('g2', 'str')
+        st.pc.append(s == z3.Concat(g1.t, g2.t))
+        st.pc.append(z3.InRe(g1.t, R1))
+        st.pc.append(z3.Not(z3.InRe(g2.t, z3.Concat(z3.Star(DIGDOT), DIG, _any()))))
+        return (g1, g2)
+    return cond, groups
+
+
+def rx_test_digit(ip, st, s):
+    """r'^test\\d.*$'"""
+    return z3.InRe(s, z3.Concat(_re('test'), DIG, _any())), lambda: ()
+
+
+def rx_p_digit(ip, st, s):
+    """r'^p(\\d).*' : group 1 is the character after the p"""
+    return z3.InRe(s, z3.Concat(_re('p'), DIG, _any())), lambda: (mk(z3.SubString(s, 1, 1), 'str'),)
+
+
+def rx_dotted_decimal(ip, st, s):
+    """r'^\\d+(\\.\\d+)*$' (no group is read by the code)"""
+    return z3.InRe(s, z3.Concat(z3.Plus(DIG), z3.Star(z3.Concat(_re('.'), z3.Plus(DIG))))), lambda: (None,)
+
+
+def rx_bracket_host(ip, st, s):
+    """r'^\\[([^\\]]+)\\](?::(\\d+))?$' : unambiguous -- group 1 cannot contain ']' so it ends at the first ']';
+    group 2 is the digits after the ':' when present"""
+    notbr = z3.Complement(z3.Concat(_any(), _re(']'), _any()))
+    g1re = z3.Intersect(notbr, z3.Plus(_anyc()))
+    full = z3.Concat(_re('['), g1re, _re(']'), z3.Option(z3.Concat(_re(':'), z3.Plus(DIG))))
+    cond = z3.InRe(s, full)
+
+    def groups():
+        idx = z3.IndexOf(s, zstr(']'), 0)
+        g1 = mk(z3.SubString(s, 1, idx - 1), 'str')
+        has2 = z3.Length(s) > idx + 1
+        rest = z3.SubString(s, idx + 2, z3.Length(s) - idx - 2)
+        g2 = Sym(z3.If(has2, opt_some(('opt', 'str'), rest), opt_none(('opt', 'str'))), ('opt', 'str'))
+        return (g1, g2)
+    return cond, groups
+
+
+RE_MODELS = {
+    r'^([\d\.]+\d+)(.*)$': rx_dotted_prefix,
+    r'^([\d\.]*\d+)(.*)$': rx_dotted_prefix1,
+    r'^test\d.*$': rx_test_digit,
+    r'^p(\d).*': rx_p_digit,
+    r'^\d+(\.\d+)*$': rx_dotted_decimal,
+    r'^\[([^\]]+)\](?::(\d+))?$': rx_bracket_host,
+}
+
+
+def wrap_native_match(st, m):
+    if m is None:
+        return None
+    return st.new_obj('<match>', {'groups': tuple(m.groups()), 'whole': m.group(0)})
+
+
+def m_re_match(ip, st, args, kwargs):
+    pattern, s = args[0], args[1]
+    if len(args) > 2 or kwargs:
+        raise Unsupported('re.match flags')
+    if isinstance(pattern, Ref):
+        p = st.get(pattern)
+        if isinstance(p, Obj) and p.cls == '<pattern>':
+            pattern = p.f['pattern']
+    if is_sym(pattern):
+        raise Unsupported('symbolic regular expression')
+    if isinstance(s, str):
+        import re as _re_mod
+        return wrap_native_match(st, _re_mod.match(pattern, s))
+    s = lib_unwrap_str(ip, st, s)
+    model = RE_MODELS.get(pattern)
+    if model is None:
+        raise Unsupported('no model for regular expression %r' % pattern)
+    zs = S(s)
+    for (hp, ht, hcond, hgroups, why) in st.ghost.get('$rx_hints', ()):
+        if hp == pattern and ht.eq(zs):
+            # an *assumed* decomposition supplied by the contract for this argument (listed in the evidence)
+            ip.assumed.add(why)
+            if isinstance(hcond, bool):
+                return st.new_obj('<match>', {'groups': tuple(hgroups), 'whole': s}) if hcond else None
+            if ip.branch(st, hcond):
+                return st.new_obj('<match>', {'groups': tuple(hgroups), 'whole': s})
+            return None
+    ip.cond_raise(st, z3.Contains(zs, zstr('\n')), 'Unsupported:regex-on-multiline-string')
+    cond, groups = model(ip, st, zs)
+    if ip.branch(st, cond):
+        return st.new_obj('<match>', {'groups': tuple(groups()), 'whole': s})
+    return None
+
+
+def lib_unwrap_str(ip, st, s):
+    s = unwrap_opt(ip, st, s)
+    if type_of(s, st) != 'str':
+        _raise('TypeError', 'expected string or bytes-like object')
+    return s
+
+
+def match_method(ip, st, ref, args, kwargs, name):
+    p = st.get(ref)
+    if name == 'group':
+        if not args:
+            return p.f['whole']
+        if len(args) == 1:
+            n = args[0]
+            if n == 0:
+                return p.f['whole']
+            return p.f['groups'][n - 1]
+        return tuple(p.f['whole'] if n == 0 else p.f['groups'][n - 1] for n in args)
+    if name == 'groups':
+        return p.f['groups']
+    raise Unsupported('match.%s' % name)
+
+
+def m_re_compile(ip, st, args, kwargs):
+    if is_sym(args[0]) or len(args) > 1:
+        raise Unsupported('re.compile')
+    return st.new_obj('<pattern>', {'pattern': args[0]})
+
+
+LIB_MODELS['re.match'] = m_re_match
+LIB_MODELS['re.compile'] = m_re_compile
